@@ -697,6 +697,27 @@ func (e *factEngine) intrinsic(v ssa.Value, depth int) factSet {
 	if isIntType(v.Type()) && isUnsigned(v.Type()) {
 		f.add("ge0")
 	}
+	// v indexes a slice made with v+c elements (c >= 1): grown := make([]T,
+	// v+1); grown[v]. A slice value never changes its length, so v < len
+	// holds wherever the slice exists.
+	if refs := v.Referrers(); refs != nil && isIntType(v.Type()) {
+		for _, ref := range *refs {
+			sum, ok := ref.(*ssa.BinOp)
+			if !ok || sum.Op != token.ADD || sum.X != v {
+				continue
+			}
+			if c, isC := constInt(sum.Y); !isC || c < 1 {
+				continue
+			}
+			for _, r2 := range *sum.Referrers() {
+				if ms, ok := r2.(*ssa.MakeSlice); ok && ms.Len == ssa.Value(sum) {
+					// (not an ltlen fact: the length is derived from v
+					// itself, so it is no upper bound for v)
+					f.add("ltmade:" + exprKey(ms))
+				}
+			}
+		}
+	}
 	// the index of `for i := range s` / `for i, x := range s`: go/ssa counts
 	// it as phi[-1, i] + 1, so it is never negative
 	if b, ok := v.(*ssa.BinOp); ok && b.Op == token.ADD {
@@ -736,6 +757,19 @@ func (e *factEngine) intrinsic(v ssa.Value, depth int) factSet {
 			// exact conversion: zero-ness is preserved
 			if e.at(x.Call.Args[0], x, depth+1)["ne0"] {
 				f.add("ne0")
+			}
+		}
+		if callee := x.Call.StaticCallee(); callee != nil {
+			switch callee.String() {
+			case "(*math/big.Rat).Denom":
+				// library contract: the denominator of a Rat is always > 0
+				f.add("ne0", "gt0")
+			case "(*math/big.Int).Exp":
+				// x**y without a modulus: a power of a non-zero integer is
+				// non-zero (and x**y is 1 for y <= 0)
+				if len(x.Call.Args) == 4 && isNilConst(x.Call.Args[3]) && e.at(x.Call.Args[1], x, depth+1)["ne0"] {
+					f.add("ne0")
+				}
 			}
 		}
 		if callee := x.Call.StaticCallee(); callee != nil && core.PkgPathOf(callee) == pkgVals && callee.Name() == "Len" {
